@@ -98,6 +98,40 @@ def run_c33(chk, F, tier):
               "extract_module_path matches a workspace root with a string prefix operation (%s): a sibling directory whose name merely starts with the "
               "root's name is taken for part of that workspace and gets a bogus module path" % [((c.get("r") or c.get("f") or "").split("::")[-1]) for _, c in str_strip][:2],
               em.loc(str_strip[0][1]["l"] if str_strip else None), sample={"rule": "R33c", "verdict": "Path::strip_prefix only"})
+    # R33d: writer and reader rewrite the same spelling
+    import dataflow
+    chk.rule("R33d", "every call of replace_module_path (the workspace.moduleMap rewrite) receives a separator-normalised path (the result of "
+                     "`replace(['\\\\', '/'], \".\")`): the file side (add_module_by_path) and the require side (find_module) must present the same spelling to the rules")
+    nrw = 0
+    for k, b in F.bodies.items():
+        if not k.startswith(MI + "::") or b.kind != "fn":
+            continue
+        for bb, c in b.calls():
+            if not (c.get("r") or c.get("f") or "").endswith("LuaModuleIndex::replace_module_path") or len(c["a"]) < 2:
+                continue
+            nrw += 1
+            l = dataflow.operand_local(c["a"][1])
+            normalised = False
+            seen, todo = set(), [l]
+            while todo:
+                x = todo.pop()
+                if x is None or x in seen:
+                    continue
+                seen.add(x)
+                for r in dataflow.roots(b, x):
+                    if r[0] == "call":
+                        cc = b.blocks[r[1]][2][1]
+                        n = cc.get("r") or cc.get("f") or ""
+                        if n.endswith("::replace") and "str" in n:
+                            normalised = True
+                        elif n.endswith(("Deref>::deref", "::as_str", "::as_ref", "Clone>::clone", "::to_string", "::to_owned")) and cc["a"]:
+                            todo.append(dataflow.operand_local(cc["a"][0]))
+            chk.check(normalised, "R33d", "module-map-input@%s" % k.split("::")[-1],
+                      "%s hands replace_module_path a path whose separators were not normalised to `.` first: a moduleMap rule written with `\\.` (as the "
+                      "require side sees it) no longer matches file paths, so files are indexed under the unmapped name and `require` of the mapped name "
+                      "fails or resolves to another file" % k.split("::")[-1], b.loc(c["l"]),
+                      sample={"rule": "R33d", "fn": k.split("::")[-1], "verdict": "normalised before the rewrite"})
+    chk.floor("moduleMap rewrite call sites", nrw, 2)
     chk.explanation = "Hash-order taint of the return value of every module lookup function; dominance of both emptiness tests over node deletion; component-wise root matching."
 
 
